@@ -438,6 +438,7 @@ def run(ctx):
     ok = any(E.has(E.facts_at(bfg, n), "error.empty()", False) for n in canc)
     r.check(ok, "addRule|lookup-error-cancels", "", "a database read error does not cancel the build", g)
     E.r_discovered_append(prog, rep)
+    E.r_epoch_persist(prog, rep)
 
 
 def canon_eq(a):
